@@ -142,12 +142,19 @@ def str_const(v):
     return Const(STR_BASE + (STRS.index(v) if v in STRS else len(STRS) + (sum(map(ord, v)) % 500)), bool(v))
 
 
+def num_const(v):
+    """a Python int / float is an opaque constant too; equal numbers of different types (1, 1.0, True) stay distinct"""
+    return Const((8100 if isinstance(v, int) else 8200) + int(v) % 50, bool(v))
+
+
 def enc(v, keys):
     """flat encoding identical to Terms.enc_term"""
     if v is None:
         return [0]
     if isinstance(v, str):
         return enc(str_const(v), keys)
+    if isinstance(v, (int, float)) and not isinstance(v, bool):
+        return enc(num_const(v), keys)
     if isinstance(v, Const):
         return [1, v.c, 1 if v.truth else 0]
     if isinstance(v, App):
@@ -175,6 +182,8 @@ def coq_term(v, keys):
         return "TNone"
     if isinstance(v, str):
         return coq_term(str_const(v), keys)
+    if isinstance(v, (int, float)) and not isinstance(v, bool):
+        return coq_term(num_const(v), keys)
     if isinstance(v, Const):
         return "(TConst %d %s)" % (v.c, "true" if v.truth else "false")
     if isinstance(v, App):
